@@ -1469,21 +1469,44 @@ class Workflow(Trellis):
             return trees[0]
         return None
 
-    def _invalidate_detached_tree_creators(self, creator: Node, path: str) -> None:
+    def _invalidate_detached_tree_creators(
+        self, creator: Node, path: str, *, nested: bool = False
+    ) -> None:
         """Make the steps run again that registered a now detached static tree over `path`.
 
         A detached static tree does not own anything, so a declaration inside it is accepted.
         The tree comes back, however, when the step that registered it is recycled and skipped,
         and nothing would compare it with what was declared in the meantime.
         Without a stored hash, that step runs again when it is recycled (see `Step.after_recycle`),
-        and registering the tree then reports the conflict, as it does in a build from scratch.
+        and registering the tree then reports the conflict, or adopts the file,
+        as it does in a build from scratch.
+
+        Parameters
+        ----------
+        creator
+            The node making the declaration; its own detached trees are left alone.
+        path
+            The declared path. Directories must have trailing slashes.
+        nested
+            When `True`, `path` is itself a new static tree,
+            and detached trees below it are looked for as well.
         """
         sql = (
             "SELECT cnode.i, cnode.label FROM node JOIN node AS cnode ON cnode.i = node.creator "
             "WHERE node.kind = 'st' AND node.detached AND cnode.kind = 'step' AND cnode.i != ? "
             "AND node.label = substr(?, 1, length(node.label))"
         )
-        for i, label in list(self.db.execute(sql, (creator.i, Path(path) / ""))):
+        rows = list(self.db.execute(sql, (creator.i, Path(path) / "")))
+        if nested:
+            clause, pattern = prefix_clause("node.label", path)
+            sql = (
+                "SELECT cnode.i, cnode.label FROM node "
+                "JOIN node AS cnode ON cnode.i = node.creator "
+                "WHERE node.kind = 'st' AND node.detached AND cnode.kind = 'step' "
+                f"AND cnode.i != ? AND {clause}"
+            )
+            rows.extend(self.db.execute(sql, (creator.i, pattern)))
+        for i, label in rows:
             Step(self, i, label).after_lost_product()
 
     def _existing_claim(self, path: str) -> Claim | None:
@@ -1947,6 +1970,7 @@ class Workflow(Trellis):
         row = self.db.execute(sql, (pattern,)).fetchone()
         if row is not None:
             raise GraphError(_nested_static_tree_message(path, row[0]))
+        self._invalidate_detached_tree_creators(creator, path, nested=True)
         # A static tree is the sole owner of the files under it.
         # Attached file nodes already present under this path are therefore
         # either this creator's own static declarations, which the tree takes over below,
